@@ -235,7 +235,7 @@ def run(ctx):
                 ids[:] = ids[-10:]
     finally:
         st.close()
-    ctx.cov["rule"] = ("generated strings over all planes (controls incl. NUL where the channel allows, quotes, backslashes, HTML characters, U+2028/9, combining marks, astral, "
+    ctx.cov["rule"] = ("--body-stdin typed on a terminal (pty, Ctrl-D) alone and with --title/--state on set, new task, new epic = the same bytes through a pipe; edits after a collaborator's lines stamped ahead; generated strings over all planes (controls incl. NUL where the channel allows, quotes, backslashes, HTML characters, U+2028/9, combining marks, astral, "
                        "every Go white-space character; bodies up to 300 KB) → Go json.Marshal (both HTML modes)/Unmarshal/TrimSpace vs the Lean codec; then the same kind of text through "
                        "new/set/plan in json, flags and --body-stdin modes, read back with show --json, also after compact; thorough adds every single code point")
     ctx.assumptions += ["Go string ⇄ list of Unicode scalar values for valid UTF-8", "NUL cannot be passed in argv (flags mode excludes it)"]
